@@ -213,9 +213,6 @@ func (s *Sched) Yield(site, kind string) {
 			return
 		}
 		g := s.self()
-		if g.locked > 0 {
-			return // never park inside a critical section: the point moves to the next statement outside
-		}
 		for s.pidx < len(s.cfg.Preempt) && s.cfg.Preempt[s.pidx] <= s.pcount {
 			s.pidx++
 		}
@@ -231,7 +228,9 @@ func (s *Sched) Yield(site, kind string) {
 		g.lockwait = false
 		return
 	}
-	if g.locked > 0 || !s.siteEnabled(site, kind) {
+	// (a goroutine may be parked inside a critical section: every lock acquisition of the instrumented code waits parked behind
+	// a TryLock probe, so nobody blocks for real on the lock it holds)
+	if !s.siteEnabled(site, kind) {
 		return
 	}
 	s.park(g, site, kind)
